@@ -116,12 +116,14 @@ def structure_harness(eng, sp, inst, desc):
 
     builders = {"disj": build_disjunctive_graph, "at": build_agent_task_graph, "atj": build_agent_task_graph_with_jobs,
                 "cat": build_complete_agent_task_graph}
+    alive = []
     for kind in KINDS:
         eng.reachable("state")
         eng.reachable("transition")
         key = f"C16/{kind}"
         try:
             g = builders[kind](inst)
+            alive.append((kind, g))
         except E.Unsupported:
             raise
         except Exception as ex:
@@ -163,6 +165,17 @@ def structure_harness(eng, sp, inst, desc):
             eng.fail(key + "/edge-with-wrong-type", f"{wrong[:6]}")
         if ok and not missing and not extra and not wrong:
             eng.prove(True, key)
+    # graphs must not share state: build graphs of other instances, then look at the first ones again
+    from job_shop_lib import JobShopInstance, Operation
+
+    other = JobShopInstance([[Operation(0, 1)], [Operation(0, 1), Operation(0, 2)], [Operation(0, 1)], [Operation(0, 3), Operation(0, 1)]])
+    keep = [builders[k](other) for k in KINDS] + [builders["disj"](JobShopInstance([[Operation(0, 1)]]))]
+    for kind, g in alive:
+        nn, Ed, _ = expected(desc, kind)
+        ids = [x.node_id for x in g.nodes]
+        got = {(u, v) for u, v in g.graph.edges()}
+        if ids != list(range(nn)) or sorted(g.graph.nodes()) != list(range(nn)) or got != set(Ed):
+            eng.fail(f"C16/{kind}/graph-changed-after-building-graphs-of-other-instances", f"node ids {ids}")
     eng.observe("n", desc.n_ops)
 
 
